@@ -212,8 +212,8 @@ PAIRS = [
 ]
 
 
-def _mk_pair(ex_name, in_name, kw, cond):
-    @contract(P, f"pair[{ex_name},{in_name}]", [(FE, ex_name), (FI, in_name)], tags=("kernel",))
+def _mk_pair(ex_name, in_name, kw, cond, prop=P):
+    @contract(prop, f"pair[{ex_name},{in_name}]", [(FE, ex_name), (FI, in_name)], tags=("kernel",))
     def pair(c, ex_name=ex_name, in_name=in_name, kw=kw, cond=cond):
         x, p, n, ts = c.pw("x"), c.pw("p"), c.pw("n"), c.pw("ts")
         dt = c.real("dt")
@@ -244,7 +244,6 @@ for _a in PAIRS:
     _mk_pair(*_a)
 
 
-@contract(P, "interp_linear[between]", (FI, "interp_linear"), tags=("kernel",))
 def lin_between(c):
     p, n, t = c.pw("p"), c.pw("n"), c.pw("t")
     dt = c.real("dt")
@@ -256,6 +255,9 @@ def lin_between(c):
     c.ensure("at_older_end", z3.Implies(t.f == 0, r.f == p.f))
     c.ensure("at_newer_end", z3.Implies(t.f == dt.z, r.f == n.f))
     c.canary("canary_constant", r.f == p.f)
+
+
+contract(P, "interp_linear[between]", (FI, "interp_linear"), tags=("kernel",))(lin_between)
 
 
 @contract(P, "roundtrip[insert;select]", [(INF, "RecordTensor.insert"), (INF, "RecordTensor.select")], tags=("lemma",))
